@@ -1,8 +1,10 @@
 import OdakModel.Exec.OpsIndex
+import OdakModel.Exec.OpsWave
+import OdakModel.Exec.OpsGeom
 /-! `odakdrv`: reads one operation per line on stdin, prints the model's answer per line. -/
 namespace Odak.Exec
 
-def allOps : List (String × Handler) := opsIndex
+def allOps : List (String × Handler) := opsIndex ++ opsWave ++ opsRot
 
 def step (line : String) : String :=
   match (line.trimAscii.toString.splitOn " ").filter (· ≠ "") with
